@@ -147,12 +147,23 @@ def iso_signature(eng, policy, seg, what):
                 sig["table_utf8"] = True
             except (UnicodeDecodeError, ValueError):
                 sig["table_utf8"] = False
+    elif op == "delrange":
+        lo, hi = (e.get("ks") or [0, 0])[:2]
+        addressed = set(u for u in range(1, 8 * NT * NK + 1) if tup_parts(u)[1] == e.get("a") and tup_parts(u)[0] <= 5
+                        and (lo == 0 or tup_parts(u)[2] >= lo) and (hi == 0 or tup_parts(u)[2] < hi))
+        sig["mixed_key_lengths"] = len(set(reset.get("klens", [0]))) > 1
+    elif op in ("mget", "mexists", "mdel", "mset"):
+        addressed = set(u for u in (e.get("ks") or []) if u > 0)
     elif op == "runexpiry":
         addressed = None
     elif op == "keys":
         addressed = set()
     else:
         addressed = {e.get("u")}
+    # a partial-range delete in a world whose key names differ in length happened earlier in the segment (or is the
+    # failing command): the open finding C12-delrange-partial-length-order shows there, at once or when a key is re-created
+    if len(set(reset.get("klens", [0]))) > 1 and any(x.get("op") == "delrange" and x.get("r") == 0 for x in seg):
+        sig["after_mixed_length_delrange"] = True
     if not diff:
         sig["class"] = "wrong-reply"
     elif addressed is not None and not diff <= addressed:
